@@ -116,6 +116,11 @@ def _interleave_worker(args):
     import pyqasm
     src, hist, others = args
 
+    try:
+        pyqasm.loads(src)
+    except Exception:
+        return ("skip",)                 # the subject does not even parse: nothing to compare
+
     def run(with_others):
         m = pyqasm.loads(src)
         outs = []
